@@ -83,7 +83,7 @@ inductive Err
   | handler (code : Nat) | panic (code : Nat)
   | noData | secondEmit | finishExchange
   | capWire | capExt
-  | missingToken | badToken | missingCall | badCall | cast
+  | missingToken | badToken | wrongMethod | missingCall | badCall | cast
   deriving Repr, DecidableEq
 
 /-! ### OutputCollector -/
@@ -158,18 +158,25 @@ structure Cfg where
   maxResp : Nat          -- max_response_bytes, 0 = off
   maxExt : Nat           -- max_externalized_response_bytes, 0 = off
   extOn : Bool           -- an external storage is configured
+  threshold : Nat := 1048576   -- `ExternalLocationConfig.threshold()`
   batchLimit : Nat       -- producer batch limit, 0 = unlimited
   deriving Repr, DecidableEq
 
-/-- Serialized sizes of one produce/exchange cycle (environment). -/
+/-- Sizes of the data batch of one produce/exchange cycle (environment). -/
 structure TickEnv where
-  predicted : Nat := 0   -- `predictExternalizeBytes` of the data batch
-  extBytes : Nat := 0    -- raw bytes actually uploaded for the data batch
+  buf : Nat := 0         -- `batchBufferSize` of the emitted data batch (in-memory Arrow buffers)
+  raw : Nat := 0         -- raw IPC bytes of its upload (what the external cap is charged), if uploaded
   deriving Repr, DecidableEq
 
+/-- Serialized sizes (environment). `wire`: the whole flushed body of a unary / exchange response.
+For producer turns: `body0` bytes are in the buffer before the loop starts (header stream) and
+`sizes` are the wire sizes of the successive batches the loop writes (the first one includes the
+schema message the IPC writer emits with it). -/
 structure Env where
-  wire : Nat := 0                -- length of the flushed response body
+  wire : Nat := 0
   ticks : List TickEnv := []
+  body0 : Nat := 0
+  sizes : List Nat := []
   deriving Repr, DecidableEq
 
 structure Req where
@@ -192,11 +199,33 @@ def errResp (status : Nat) (rpcErr : Bool) (e : Err) : Resp :=
 
 /-! ### Exchange turn -/
 
+/-- rows of the collector's data batch (0 when there is none) -/
+def dataRows (c : Coll) : Nat :=
+  match c.dataIdx with
+  | none => 0
+  | some i => match c.batches[i]? with
+    | some (.data vs _) => vs.length
+    | _ => 0
+
+/-- `predictExternalizeBytes`: the buffer size when the batch would be uploaded (storage
+configured, rows > 0, at or over the threshold), else 0. The same three conditions decide in
+`externalizeBatchCtx` whether the upload happens. -/
+def predictExt (cfg : Cfg) (rows buf : Nat) : Nat :=
+  if !cfg.extOn then 0 else if rows = 0 then 0 else if buf < cfg.threshold then 0 else buf
+
+/-- raw bytes charged for this cycle's data batch: its upload's raw IPC size when it is uploaded -/
+def chargedExt (cfg : Cfg) (c : Coll) (te : TickEnv) : Nat :=
+  if c.dataIdx.isSome && decide (predictExt cfg (dataRows c) te.buf > 0) then te.raw else 0
+
+/-- the data batch of this cycle is uploaded -/
+def chargedExtFlag (cfg : Cfg) (c : Coll) (te : TickEnv) : Bool :=
+  c.dataIdx.isSome && decide (predictExt cfg (dataRows c) te.buf > 0)
+
 /-- `checkExternalBudget(out, method, alreadyUploaded)`: `true` = refuse. -/
-def extPreflight (cfg : Cfg) (c : Coll) (predicted already : Nat) : Bool :=
+def extPreflight (cfg : Cfg) (c : Coll) (te : TickEnv) (already : Nat) : Bool :=
   if !cfg.extOn || cfg.maxExt = 0 || c.dataIdx.isNone then false
-  else if predicted = 0 then false
-  else decide (already + predicted > cfg.maxExt)
+  else if predictExt cfg (dataRows c) te.buf = 0 then false
+  else decide (already + predictExt cfg (dataRows c) te.buf > cfg.maxExt)
 
 /-- `enforceResponseBudgets`. -/
 def enforceBudgets (cfg : Cfg) (wire ext : Nat) : Option Err :=
@@ -235,8 +264,8 @@ def exchangeCall (cfg : Cfg) (w : World) (cur : Cursor) (req : Req) : Resp × Wo
     match c.dataIdx with
     | none => (errResp 200 true .noData, w, [ev])
     | some di =>
-      if extPreflight cfg c te.predicted 0 then (errResp 200 true .capExt, w, [ev])
-      else match enforceBudgets cfg req.env.wire te.extBytes with
+      if extPreflight cfg c te 0 then (errResp 200 true .capExt, w, [ev])
+      else match enforceBudgets cfg req.env.wire (chargedExt cfg c te) with
         | some e => (errResp 200 true e, w, [ev])
         | none =>
           let tok := Val.cursor w.minted.length
@@ -261,6 +290,8 @@ structure LoopOut where
   err : Option Err
   pos : Nat
   events : List Event
+  body : Nat := 0           -- bytes in the response buffer when the loop returns
+  uploads : List Nat := []  -- predicted (buffer) sizes of the data batches this turn uploaded
   deriving Repr, DecidableEq
 
 def flushProducer : List OBatch → List RBatch
@@ -268,32 +299,48 @@ def flushProducer : List OBatch → List RBatch
   | .log m :: r => .log m :: flushProducer r
   | .data vs md :: r => .data vs (litMeta md) :: flushProducer r
 
-/-- `runProduceLoop`, iterating over the ticks the script still has (`[]` = the script is
+def sumList : List Nat → Nat
+  | [] => 0
+  | a :: r => a + sumList r
+
+/-- `runProduceLoopSized`, iterating over the ticks the script still has (`[]` = the script is
 exhausted: the scripted state finishes the stream). `first` is the metadata the first `Produce`
-call of this HTTP turn sees (`none` afterwards). -/
-def produceLoop (cfg : Cfg) : List Tick → Nat → Option Meta → Nat → Nat → List TickEnv → LoopOut
-  | [], pos, first, _, _, _ =>
-    { out := [], finished := true, err := none, pos := pos + 1, events := [.produce pos (first.getD [])] }
-  | t :: rest, pos, first, nData, ext, envs =>
+call of this HTTP turn sees (`none` afterwards); `nData` data batches and `ext` raw upload bytes
+so far in this turn; `body` bytes already in the response buffer, `sizes` the wire sizes of the
+batches still to be written. -/
+def produceLoop (cfg : Cfg) : List Tick → Nat → Option Meta → Nat → Nat → List TickEnv → Nat → List Nat → LoopOut
+  | [], pos, first, _, _, _, body, _ =>
+    { out := [], finished := true, err := none, pos := pos + 1, events := [.produce pos (first.getD [])],
+      body := body }
+  | t :: rest, pos, first, nData, ext, envs, body, sizes =>
     let ev := Event.produce pos (first.getD [])
     let te := envs.headD {}
     match runActs [] (Coll.new true) t with
-    | (_, some e) => { out := [.exc e], finished := false, err := some e, pos := pos + 1, events := [ev] }
+    | (_, some e) =>
+      { out := [.exc e], finished := false, err := some e, pos := pos + 1, events := [ev],
+        body := body + sumList (sizes.take 1) }
     | (c, none) =>
       if !c.finished && c.dataIdx.isNone then
-        { out := [.exc .noData], finished := false, err := some .noData, pos := pos + 1, events := [ev] }
-      else if extPreflight cfg c te.predicted ext then
-        { out := [.exc .capExt], finished := false, err := some .capExt, pos := pos + 1, events := [ev] }
+        { out := [.exc .noData], finished := false, err := some .noData, pos := pos + 1, events := [ev],
+          body := body + sumList (sizes.take 1) }
+      else if extPreflight cfg c te ext then
+        { out := [.exc .capExt], finished := false, err := some .capExt, pos := pos + 1, events := [ev],
+          body := body + sumList (sizes.take 1) }
       else
         let flushed := flushProducer c.batches
         let nData' := nData + (if c.dataIdx.isSome then 1 else 0)
+        let body' := body + sumList (sizes.take c.batches.length)
+        let up := if chargedExtFlag cfg c te then [predictExt cfg (dataRows c) te.buf] else []
         if c.finished then
-          { out := flushed, finished := true, err := none, pos := pos + 1, events := [ev] }
+          { out := flushed, finished := true, err := none, pos := pos + 1, events := [ev], body := body', uploads := up }
         else if cfg.batchLimit > 0 ∧ nData' ≥ cfg.batchLimit then
-          { out := flushed, finished := false, err := none, pos := pos + 1, events := [ev] }
+          { out := flushed, finished := false, err := none, pos := pos + 1, events := [ev], body := body', uploads := up }
+        else if cfg.maxResp > 0 ∧ body' ≥ cfg.maxResp then
+          { out := flushed, finished := false, err := none, pos := pos + 1, events := [ev], body := body', uploads := up }
         else
-          let r := produceLoop cfg rest (pos + 1) none nData' (ext + te.extBytes) envs.tail
-          { r with out := flushed ++ r.out, events := ev :: r.events }
+          let r := produceLoop cfg rest (pos + 1) none nData' (ext + chargedExt cfg c te) envs.tail body'
+            (sizes.drop c.batches.length)
+          { r with out := flushed ++ r.out, events := ev :: r.events, uploads := up ++ r.uploads }
 
 /-- `streamResponseStatus`: only an external-cap refusal flips the error header. -/
 def producerRpcErr : Option Err → Bool
@@ -303,6 +350,7 @@ def producerRpcErr : Option Err → Bool
 /-- `handleProducerContinuation`. -/
 def producerContinuation (cfg : Cfg) (w : World) (cur : Cursor) (req : Req) : Resp × World × List Event :=
   let r := produceLoop cfg (cur.st.prog.drop cur.st.pos) cur.st.pos (some (stripFramework req.md)) 0 0 req.env.ticks
+    req.env.body0 req.env.sizes
   if r.err.isNone && !r.finished then
     ({ status := 200, rpcErr := false,
        batches := r.out ++ [.token [(keyState, .cursor w.minted.length)]] },
@@ -330,13 +378,10 @@ def resolveCall (cfg : Cfg) (w : World) (inst : Nat) (cur : Cursor) (callTok : O
       else .error .badCall
     | some _ => .error .badCall
 
-/-- A cursor of one stream kind presented on a method of the other kind: the Go code's unchecked
-type assertion panics (DESIGN §7 F14, property C14). Not part of this model: the drivers refuse
-such lines. -/
-def crossKind : Resp := { status := 0, rpcErr := false, batches := [] }
-
 /-- `handleStreamExchange` after authentication, routing and body decoding. The cast gate only
-exists for exchange methods (`info.InputSchema != nil`). -/
+exists for exchange methods (`info.InputSchema != nil`). A cursor resumes only the method that
+minted it (`tokenData.Method != method || !streamStateFits(...)` → 400); the scripted family has
+one method per stream kind, so "same method" is "same kind". -/
 def handleExchange (cfg : Cfg) (w : World) (req : Req) : Resp × World × List Event :=
   let tok := getFirst keyState req.md
   let callTok := getFirst keyCall req.md
@@ -348,11 +393,11 @@ def handleExchange (cfg : Cfg) (w : World) (req : Req) : Resp × World × List E
       match openCursor w tv with
       | none => (errResp 400 false .badToken, w, [])
       | some cur =>
-        match resolveCall cfg w req.inst cur callTok with
+        if req.routeProducer != cur.st.producer then (errResp 400 false .wrongMethod, w, [])
+        else match resolveCall cfg w req.inst cur callTok with
         | .error e => (errResp 400 false e, w, [])
         | .ok w1 =>
           if cancelled then cancelTurn w1 cur
-          else if req.routeProducer != cur.st.producer then (crossKind, w1, [])
           else if req.routeProducer then producerContinuation cfg w1 cur req
           else exchangeCall cfg w1 cur req
 
@@ -375,6 +420,7 @@ def handleInit (cfg : Cfg) (w : World) (rq : InitReq) : Resp × World × List Ev
   let tokMeta : Meta := [(keyState, .cursor w.minted.length), (keyCall, .call c)]
   if rq.st.producer then
     let r := produceLoop cfg (rq.st.prog.drop rq.st.pos) rq.st.pos (some rq.md) 0 0 rq.env.ticks
+      rq.env.body0 rq.env.sizes
     if r.err.isNone && !r.finished then
       ({ status := 200, rpcErr := false, batches := r.out ++ [.token tokMeta] },
        cachePut cfg { w0 with minted := w0.minted ++ [advance cur r.pos] } rq.inst c, r.events)
